@@ -229,6 +229,19 @@ func verifCheck(t tWorkflow, run *vRun, res *vResult, normInput any, opts vCheck
 											would = false
 										}
 									}
+									// a one-of among its inputs needs an alternative whose sources were produced
+									_, oneofs := verifTagged(t.steps[i].fields[f])
+									for _, o := range oneofs {
+										any := false
+										for _, opt := range o.Options {
+											if run.optionAvailable(opt, 0) {
+												any = true
+											}
+										}
+										if !any {
+											would = false
+										}
+									}
 								}
 							}
 						}
